@@ -45,7 +45,7 @@ def budget_tie(chk):
             "methods": sorted(meths)}
 
 
-CIRCUIT_THEOREMS = ["state_ir_correct", "allow_ir_correct", "record_success_ir_correct", "record_failure_ir_correct",
+CIRCUIT_THEOREMS = ["init_ir_correct", "state_ir_correct", "allow_ir_correct", "record_success_ir_correct", "record_failure_ir_correct",
                     "record_cancel_ir_correct", "krun_ir_correct"]
 
 
@@ -77,7 +77,7 @@ def circuit_tie(chk):
                 "detail": f"obligation {where or '?'} on the translated source no longer checks: {stderr.strip()[-600:]}",
                 "ir": {k: v[1] for k, v in meths.items()}}
     return {"ok": True, "stage": "done", "theorems": CIRCUIT_THEOREMS, "closed_under_global_context": closed, "seconds": round(wall, 1),
-            "methods": sorted(meths), "event_names": used, "not_translated": ["__init__"]}
+            "methods": sorted(meths), "event_names": used}
 
 
 def report(chk, tie, name, searched):
